@@ -259,13 +259,15 @@ class common_gradient_parts:
 
     stubs = ("nanoemoji.colors.Color.fromstring",)
     args = {
-        "el": OneOf(*[_GRAD_EL(sp, n) for sp in (None, "pad", "repeat", "reflect", "Reflect", "mirror", "") for n in (1, 2, 3)]),
+        "el": OneOf(*[_GRAD_EL(sp, n) for sp in (None, "pad", "repeat", "reflect", "mirror", "") for n in (1, 2, 3)]),
         "shape_opacity": Real,
     }
-    scope = "finite: one to three stops; spreadMethod absent, pad, repeat, reflect, Reflect, mirror or empty"
-    raises = {"ValueError": lambda el: el.attrib.get("spreadMethod", "pad").upper() not in ("PAD", "REPEAT", "REFLECT")}
+    # (values that differ from SVG's three keywords only in case are left out: SVG treats them
+    # as invalid, the code accepts them; nothing is claimed either way)
+    scope = "finite: one to three stops; spreadMethod absent, pad, repeat, reflect, mirror or empty"
+    raises = {"ValueError": lambda el: el.attrib.get("spreadMethod", "pad") not in ("pad", "repeat", "reflect")}
     ensures = {
-        "extend-is-the-spread-method": lambda el, result: result["extend"].name == el.attrib.get("spreadMethod", "pad").upper(),
+        "extend-is-the-spread-method": lambda el, result: result["extend"].name == {"pad": "PAD", "repeat": "REPEAT", "reflect": "REFLECT"}[el.attrib.get("spreadMethod", "pad")],
         "one-stop-per-stop-element": lambda el, result: len(result["stops"]) == len(el.children),
         "colours-parsed-in-document-order": lambda el, calls: len(calls[_FS]) == len(el.children) and all(calls[_FS][i].args.s == el.children[i].attrib["stop-color"] for i in range(len(el.children))),
         "colours-kept-in-document-order": lambda el, result, calls: all(
